@@ -415,9 +415,12 @@ EQ_OPS = ["=", "!="]
 
 
 def gen_pred(rng, pool, confuse=0.0, pqual=0.35):
-    """one comparison; with probability `confuse` the operand types are mixed up"""
+    """one comparison; with probability `confuse` the operand types are mixed up (or, one time in
+    four, a bare value stands where a comparison is expected)"""
     c = rng.choice(pool)
     bad = rng.random() < confuse
+    if bad and rng.random() < 0.25:
+        return rng.choice([c.ref(rng, pqual), lit_for(rng, c), "1", "'a'", "true", "false"])
     if c.ty == "boolean" and not bad:
         op = rng.choice(EQ_OPS)
     else:
